@@ -17,6 +17,7 @@ EXPLANATION = (
     "in the single-threaded configuration that variant is the only one compiled; C03.6 the size-class constants satisfy the relations the unchecked bin indexing and the boundary tags rely on. "
     "C03.7 contents: calloc zeroes the whole request unless the block is null or its own fresh kernel mapping and no other condition guards the zeroing, alloc_zeroed goes through calloc, a moving reallocation copies min(old, new) bytes old->new before freeing the old block; "
     "C03.8 a failed in-place resize mutates nothing: no store or mutating call in try_realloc_chunk lies on a path that then returns null. "
+    "C03.9 an over-aligned request reserves at least request2size(bytes) + alignment + MIN_CHUNK_SIZE - CHUNK_OVERHEAD and splits its tail only when a whole chunk remains. "
     "NOT decided: alignment, disjointness and intactness of live blocks - invariants of the bin/tree/segment shape over call histories (the module's own check_malloc_state is a run-time checker); no structural rule in reach establishes them.")
 ASSUMPTIONS = ["dlmalloc's heap-shape invariants hold (not established here)", "MUNMAP returns 0 or -errno"]
 
@@ -232,6 +233,31 @@ def run_one(ck, prog):
         callee = [t.get("callee") for _, t in c3.cfg.calls(lambda t: (t.get("callee") or "").startswith(DL))]
         ck.ob("C03.7", f"alloc_zeroed-uses-calloc|{f['path'].split(' as ')[0].split('::')[-1]}", callee == [DL + "calloc"], fn=f["path"], detail=f"alloc_zeroed must go through Dlmalloc::calloc; it calls {callee}")
     ck.floor("C03.7", "alloc_zeroed implementations", len(ga_z), 1)
+
+    # ---- C03.9 an over-aligned request reserves enough room to find an aligned chunk of the full size -------------------------------------------
+    ma = prog.fns.get(DL + "memalign")
+    if ck.anchor("C03.9", "memalign", ma):
+        from .c07 import Lin
+        cm = prog.ctx(ma)
+        lin = Lin(cm)
+        im = [bb for bb, t in cm.cfg.calls(lambda t: t.get("callee") == DL + "inner_malloc")]
+        ck.ob("C03.9", "anchor|one-inner_malloc", len(im) == 1, fn=ma["path"], detail=f"inner_malloc calls in memalign: {len(im)}")
+        mcs, coh = prog.const(DL + "MIN_CHUNK_SIZE"), prog.const(DL + "CHUNK_OVERHEAD")
+        if im and isinstance(mcs, int) and isinstance(coh, int):
+            req = lin.of(cm.args(im[0])[1])
+            terms = req[0] if req else {}
+            nb_terms = [t for t in terms if "request2size" in t]
+            al_terms = [t for t in terms if "alignment" in t]
+            ok = req is not None and len(terms) == 2 and len(nb_terms) == 1 and len(al_terms) == 1 and terms[nb_terms[0]] == 1 and terms[al_terms[0]] == 1 and req[1] >= mcs - coh
+            ck.ob("C03.9", "memalign-reserves-nb+alignment+min_chunk-overhead", ok, fn=ma["path"], site=cm.site(im[0]),
+                  detail=f"memalign must ask for at least request2size(bytes) + alignment + MIN_CHUNK_SIZE - CHUNK_OVERHEAD (= +{mcs - coh}) bytes: the aligned spot may have to move one alignment step up to leave a leader of MIN_CHUNK_SIZE, and what remains must still hold the padded request; it asks for {req} - with less, the block handed out can be shorter than requested and its tail overlaps the next chunk")
+            # the block handed out is never shorter than nb: the tail is split off only under size > nb + MIN_CHUNK_SIZE, at offset nb
+            for bb, t in cm.cfg.calls(lambda t: (t.get("callee") or "").endswith("Chunk::plus_offset")):
+                a = cm.args(bb)
+                if mentions(a[1], cm.prov, lambda z: z[0] == "call" and (z[1] or "").endswith("request2size")):
+                    fs = panics.dominating_facts(cm, bb)
+                    guarded = any(f[0] == "cmp" and f[1] in ("Gt", "Ge") and mentions(f[2], cm.prov, lambda z: z[0] == "call" and (z[1] or "").endswith("Chunk::size")) and mentions(f[3], cm.prov, lambda z: z[0] == "call" and (z[1] or "").endswith("request2size")) and mentions(f[3], cm.prov, lambda z: z[0] == "const" and z[2] and z[2].endswith("MIN_CHUNK_SIZE")) for f in fs)
+                    ck.ob("C03.9", "tail-split-only-when-a-whole-chunk-remains", guarded and canon(strip_casts(a[1])) == canon(strip_casts(cm.args(bb)[1])), fn=ma["path"], site=cm.site(bb), detail="the spare tail may be split off only under size > nb + MIN_CHUNK_SIZE")
 
     # ---- C03.8 a failed in-place resize leaves the heap untouched ------------------------------------------------------------------------------
     trc = prog.fns.get(DL + "try_realloc_chunk")
